@@ -910,3 +910,33 @@ package queue
 //@   requires conn != nil
 //@   modifies durable, txOpen, txPending
 //@   calls database/sql.(*Conn).ExecContext requires [C05:expired_leases_are_requeued_as_of_the_store_clock] arg2 == "\nUPDATE queue_items\nSET state = ?, lease_id = NULL, lease_until = NULL, next_run_at = ?, dead_reason = NULL\nWHERE state = ?\n  AND lease_until IS NOT NULL\n  AND lease_until <= ?;\n" && nvarargs == 4 && vararg0 == "queued" && vararg1 == unixNanoOf(now) && vararg2 == "leased" && vararg3 == unixNanoOf(now)
+
+// ---- C14 on the SQLite boundary: by-id mutations (SQL text pinned, parameters proved) ----
+//@ func (*SQLiteStore).CancelMessages
+//@   requires s != nil && s.db != nil
+//@   modifies durable, syncFullSet
+//@   loop 1 invariant [ids_follow_the_fixed_parameters] rangeindex < len(ids) && len(args) == 5 + rangeindex + 1 && args[0] == "canceled" && args[2] == "queued" && args[3] == "leased" && args[4] == "dead" && forall j int :: 0 <= j && j <= rangeindex ==> args[5 + j] == ids[j]
+//@   calls database/sql.(*DB).ExecContext requires [C14:cancel_updates_only_queued_leased_dead_rows_named_by_id] arg2 == "\nUPDATE queue_items\nSET state = ?, lease_id = NULL, lease_until = NULL, next_run_at = ?, dead_reason = NULL\nWHERE state IN (?, ?, ?)\n  AND id IN (" + ext("strings.TrimRight", ext("strings.Repeat", "?,", len(ids)), ",") + ");" && len(arg3) == 5 + len(ids) && arg3[0] == "canceled" && arg3[2] == "queued" && arg3[3] == "leased" && arg3[4] == "dead" && forall j int :: 0 <= j && j < len(ids) ==> arg3[5 + j] == ids[j]
+//@ func (*SQLiteStore).RequeueMessages
+//@   requires s != nil && s.db != nil
+//@   modifies durable, syncFullSet, signals
+//@   loop 1 invariant [ids_follow_the_fixed_parameters] rangeindex < len(ids) && len(args) == 4 + rangeindex + 1 && args[0] == "queued" && args[2] == "dead" && args[3] == "canceled" && forall j int :: 0 <= j && j <= rangeindex ==> args[4 + j] == ids[j]
+//@   calls database/sql.(*DB).ExecContext requires [C14:requeue_updates_only_dead_canceled_rows_named_by_id] arg2 == "\nUPDATE queue_items\nSET state = ?, lease_id = NULL, lease_until = NULL, next_run_at = ?, dead_reason = NULL\nWHERE state IN (?, ?)\n  AND id IN (" + ext("strings.TrimRight", ext("strings.Repeat", "?,", len(ids)), ",") + ");" && len(arg3) == 4 + len(ids) && arg3[0] == "queued" && arg3[2] == "dead" && arg3[3] == "canceled" && forall j int :: 0 <= j && j < len(ids) ==> arg3[4 + j] == ids[j]
+
+//@ func (*SQLiteStore).ResumeMessages
+//@   requires s != nil && s.db != nil
+//@   modifies durable, syncFullSet, signals
+//@   loop 1 invariant [ids_follow_the_fixed_parameters] rangeindex < len(ids) && len(args) == 3 + rangeindex + 1 && args[0] == "queued" && args[2] == "canceled" && forall j int :: 0 <= j && j <= rangeindex ==> args[3 + j] == ids[j]
+//@   calls database/sql.(*DB).ExecContext requires [C14:resume_updates_only_canceled_rows_named_by_id] arg2 == "\nUPDATE queue_items\nSET state = ?, lease_id = NULL, lease_until = NULL, next_run_at = ?, dead_reason = NULL\nWHERE state = ?\n  AND id IN (" + ext("strings.TrimRight", ext("strings.Repeat", "?,", len(ids)), ",") + ");" && len(arg3) == 3 + len(ids) && arg3[0] == "queued" && arg3[2] == "canceled" && forall j int :: 0 <= j && j < len(ids) ==> arg3[3 + j] == ids[j]
+
+//@ func (*SQLiteStore).RequeueDead
+//@   requires s != nil && s.db != nil
+//@   modifies durable, syncFullSet, signals
+//@   loop 1 invariant [ids_follow_the_fixed_parameters] rangeindex < len(ids) && len(args) == 3 + rangeindex + 1 && args[0] == "queued" && args[2] == "dead" && forall j int :: 0 <= j && j <= rangeindex ==> args[3 + j] == ids[j]
+//@   calls database/sql.(*DB).ExecContext requires [C14:dlq_requeue_updates_only_dead_rows_named_by_id] arg2 == "\nUPDATE queue_items\nSET state = ?, lease_id = NULL, lease_until = NULL, next_run_at = ?, dead_reason = NULL\nWHERE state = ?\n  AND id IN (" + ext("strings.TrimRight", ext("strings.Repeat", "?,", len(ids)), ",") + ");" && len(arg3) == 3 + len(ids) && arg3[0] == "queued" && arg3[2] == "dead" && forall j int :: 0 <= j && j < len(ids) ==> arg3[3 + j] == ids[j]
+
+//@ func (*SQLiteStore).DeleteDead
+//@   requires s != nil && s.db != nil
+//@   modifies durable, syncFullSet, signals
+//@   loop 1 invariant [ids_follow_the_fixed_parameters] rangeindex < len(ids) && len(args) == 1 + rangeindex + 1 && args[0] == "dead" && forall j int :: 0 <= j && j <= rangeindex ==> args[1 + j] == ids[j]
+//@   calls database/sql.(*DB).ExecContext requires [C14:dlq_delete_deletes_only_dead_rows_named_by_id] arg2 == "\nDELETE FROM queue_items\nWHERE state = ?\n  AND id IN (" + ext("strings.TrimRight", ext("strings.Repeat", "?,", len(ids)), ",") + ");" && len(arg3) == 1 + len(ids) && arg3[0] == "dead" && forall j int :: 0 <= j && j < len(ids) ==> arg3[1 + j] == ids[j]
